@@ -10,7 +10,7 @@ CHECKS = {
          "Machine-checked theorems (Props/C07.lean) about Fp.fold, whose index expressions are regenerated from "
          "fprint.py/db.py on every run: folded positions are i % b (resp. i / ratio), OR / sum of collisions, "
          "rejection iff not b*2^n, total conserved, two-step = one-step. Tied to the code by running model and "
-         "implementation on the same seeded folds (all kinds, lengths to 2^32, both methods, options).",
+         "implementation on the same seeded folds (all kinds, lengths to 2^32, both methods, options). Props/C07Route.lean: the fingerprint requested from the fingerprinter at b bits is the 2^32-bit fingerprint folded to b, whatever length the fingerprinter was built with; fold_guard / dbFold_guard: the model refuses exactly when the refusal guards translated statement by statement from the source (Gen.foldGuard) do. Props/C09Heap.lean (object model): a fold returns a new object (or the cached one), leaves the source's content unchanged, shares no container.",
          "Trusted: Lean kernel; extract.py's expression translation; harness canonicalisation; NumPy unique/int64 casts; "
          "IEEE exactness of log2 on exact powers of two.", "DESIGN.md section 6 (C07)"),
  "C01": ("Lean 4 invariance theorems over the real-number instance of the polymorphic geometry + differential correspondence of the Float instance on rigid-motion twins",
@@ -56,13 +56,14 @@ CHECKS = {
  "C13": ("Lean 4 theorems on the model of filter_conformers (selection contract for every energy list and RMSD oracle) + differential correspondence with recorded energies/RMSDs",
          "Props/C13.lean: for all energies, all RMSD oracles and all options the accepted conformers are pairwise at least the cutoff apart, no more than `first`, reported energies and the reported "
          "RMSD matrix are those of the returned conformers in the returned order; targets are resolved per molecule. Tied to the code by recording the pool energies and every RMSD the real loop asks for, "
-         "feeding them to the model, and re-measuring the returned molecule independently (pairwise GetBestRMS, SMILES, input unmodified, seed repeat, generator reuse).",
+         "feeding them to the model, and re-measuring the returned molecule independently (pairwise GetBestRMS, SMILES, input unmodified, seed repeat, generator reuse). The generator object (CGen): runMols_eq_fresh - over any history of molecules each one gets the pool size, target and `first` a fresh generator resolves; the automatic target is Gen.genNumConf, translated statement by statement from get_num_conformers (genNumConf_spec); tied by driver op conf.gen_hist against embed_molecule over histories of molecules of every rotatable-bond class.",
          "Trusted: Lean kernel; RDKit embedding / force fields / GetBestRMS (numerical engines). Partial by nature: seed reproducibility and 'same molecule' are observed, not proved.",
          "DESIGN.md section 7 (C13)"),
  "C14": ("Lean 4 refinement theorem: the conformer loop of fprints_dict_from_mol on ONE reused fingerprinter object equals direct (fresh) fingerprinting of the first N conformers (composing the C04 history theorem and the C12 truncation theorem) + theorems on naming / first-N / level keys + differential correspondence of the whole returned dictionary",
          "Props/C14Entry.lean: entry_eq_direct (for every option set, molecule, conformer list, name, `first` and all_iters the model of the entry point returns, key by key and conformer by conformer, the fingerprint a fresh fingerprinter computes, named <molecule>_<index>), entry_count, entry_names(_nodup), entry_prefix, entry_alliters_eq_limited (each level's list equals a separate run limited to that level). "
          "Props/C14.lean: the loop processes all conformers for first = -1 or >= n and exactly `first` otherwise; suffix-free names get `_<index>` (and the exclusion is necessary: example); level keys. "
-         "Tied to the code by running fprints_from_mol / fprints_dict_from_mol (all_iters) / fprints_from_sdf / fprints_from_smiles / save+reload and comparing with per-conformer Fingerprinter runs.",
+         "Props/C14Save.lean (the save step): a call that returns fingerprints has written exactly the returned list under each level key (save_consistent), also when only some of the molecule's files existed before (save_partial_rewrites_all); skip, other files untouched, idempotence. "
+         "Tied to the code by running fprints_from_mol / fprints_dict_from_mol (all_iters) / fprints_from_sdf / fprints_from_smiles / save+reload (also into directories holding files of earlier runs; file states compared with the save-run model) and comparing with per-conformer Fingerprinter runs.",
          "Trusted: Lean kernel; extract.py; RDKit SDF I/O, pickle/compression.", "DESIGN.md section 7 (C14)"),
  "C15": ("Lean 4 theorems on the batch model (collection is permutation-invariant, failures contribute nothing, existing files are never rewritten without overwrite) + real batch runs in three parallel modes with injected crashes",
          "Props/C15.lean: schedule_free (List.Perm of collected rows under any completion order), isolation, resume_safe (a path present before the run keeps its content when overwrite is off). Tied to the code by real runs of "
@@ -76,8 +77,8 @@ CHECKS = {
          "DESIGN.md section 7 (C19)"),
  "C20": ("kernel-decided coherence of the defaults table regenerated from the source (translator) + Lean round-trip theorems on the str()/literal_eval model + differential correspondence",
          "Props/C20.lean: defaults_coherent and defaults_cover are decided by `decide` over the complete table of 123 default declarations regenerated from /repo on every run (signatures, *_DEF constants, argparse parsers, generator class vs defaults.cfg); "
-         "round-trip theorems for bool/None/int. Tied to the code by writing/reading seeded option dictionaries of every scalar type through parameter files and by comparing fingerprints from a parameter file with the same options passed directly.",
-         "Trusted: Lean kernel; extract.py (cross-checked against live inspect/argparse values); configparser, literal_eval, repr(float). Known finding: string options whose text is a Python literal change type.",
+         "round-trip theorems for bool/None/int; Props/C20State.lean: the packaged file, the live default_params object and user files as a state machine - read_fallback, read_user_wins and read_history_free (a read with fill_defaults is a function of the packaged file and the user file only, after any history of the process). Tied to the code by writing/reading seeded option dictionaries of every scalar type through parameter files, by histories of derive / read / get_default on the real module (driver op cfg.hist), and by comparing fingerprints from a parameter file (pipeline route and batch route, library-written and hand-written) with the same options passed directly.",
+         "Trusted: Lean kernel; extract.py (cross-checked against live inspect/argparse values); configparser, literal_eval, repr(float). Known findings: string options whose text is a Python literal change type; INI boolean spellings on the pipeline route; non-finite floats.",
          "DESIGN.md section 7 (C20)"),
  "C16": ("Lean 4 atomic-refusal theorems on the database model + differential correspondence with injected faults",
          "Machine-checked theorems (Props/C16.lean): add/set_prop/update_props refuse exactly the batches carrying a wrong level, wrong length, "
@@ -99,13 +100,13 @@ CHECKS = {
          "DESIGN.md section 6 (C08)"),
  "C17": ("Lean 4 theorems on conversions between kinds + differential correspondence",
          "Machine-checked theorems (Props/C17.lean) on fromFingerprint / Db.asType: support preserved in all six directions, values preserved where representable; bit and count fingerprints "
-         "built from the same identifier list have the same support and the counts are multiplicities. Tied to the code by converting generated and derived (a-b) fingerprints and whole databases in every direction.",
-         "Trusted: Lean kernel; NumPy astype casts compared on every run. Negative counts (a-b with b>a) are outside the quantifier (documented class invariant: counts > 0).",
+         "built from the same identifier list have the same support and the counts are multiplicities; Props/C17Db.lean: a database conversion re-casts every stored entry in place (asType_rows) and preserves the non-zero columns of every row for the bit and float kinds, negative entries included (asType_support). Tied to the code by converting generated and derived (a-b) fingerprints and whole databases in every direction, mixed-kind batches, float databases with negative entries.",
+         "Trusted: Lean kernel; NumPy astype casts compared on every run. Negative counts in *fingerprint objects* (a-b with b>a) are outside the quantifier (documented class invariant: counts > 0); negative entries of float databases are inside.",
          "DESIGN.md section 7 (C17)"),
  "C09": ("Lean 4 theorems on the equality model + differential correspondence",
          "Machine-checked theorems (Props/C09.lean): == decides content equality on the model of Fingerprint.__eq__/CountFingerprint.__eq__ "
          "(hence reflexive, symmetric, transitive, != its negation, never an error within a kind family); copies equal. Tied to the code "
-         "by running ==/!= both ways on seeded near-variant pairs/triples and by mutating copies through every public setter.",
+         "by running ==/!= both ways on seeded near-variant pairs/triples and by mutating copies through every public setter. Props/C09Heap.lean on the object model (Model/FpHeap: a heap of containers, ownership, the linked fold cache): in every reachable heap no container is referred to by two objects (run_inv), an operation changes nothing observable about any object it is not applied to (step_frame), results are built from newly allocated containers, and protected_history / copy_independent / original_independent: whatever is done to a copy and to anything made after it never changes an older object, and vice versa. Tied to the code by histories of operations on live objects with every object and the sharing relation (is / np.shares_memory) compared after every step, and by observers that must answer like a fresh object of the same content.",
          "Trusted: Lean kernel; harness canonicalisation; pickle/deepcopy. Copy independence of caller-supplied mutable prop values is not claimed.",
          "DESIGN.md section 6 (C09)"),
  "C10": ("Lean 4 round-trip theorems on the representation model + differential correspondence",
@@ -117,7 +118,7 @@ CHECKS = {
  "C11": ("Lean 4 set-algebra / pointwise-arithmetic theorems + differential correspondence (exhaustive for small lengths)",
          "Machine-checked theorems (Props/C11.lean): the five set operators denote union / intersection / difference / symmetric difference of the "
          "operands' bits, count + and - are pointwise, scalars scale, batch sum/mean are pointwise sums/means, results well-formed, length mismatch rejected. "
-         "Tied to the code by exhaustive enumeration of all operand pairs for lengths <= 3 (4 in thorough) x 5 operators x plain/reflected/in-place forms and seeded samples to 2^32.",
+         "Tied to the code by exhaustive enumeration of all operand pairs for lengths <= 3 (4 in thorough) x 5 operators x plain/reflected/in-place forms and seeded samples to 2^32, operands read back from databases / narrow-dtype vectors, NumPy scalar factors, mixed-kind expressions; operands-unchanged is the frame theorem of the object model (Props/C09Heap.lean: step_frame, builds_new) over operator, scalar and batch operations in object histories.",
          "Trusted: Lean kernel; NumPy set routines; float arithmetic exact on generated dyadic values.", "DESIGN.md section 6 (C11)"),
 }
 NOT_YET = {}
